@@ -522,7 +522,10 @@ def r5(fx):
     for n, ok in ((3, False), (4, True), (5, False)):
         cases.append((f'purpose of {n} characters', dict(purpose='p' * n), ok))
     for a, ok in (('0', False), ('0.009', False), ('0.01', True), (0.01, True), (1, True), ('999999999.99', True), ('1000000000', False),
-                  ('999999999.991', False), (-1, False), (5.5, True)):
+                  ('999999999.991', False), (-1, False), (5.5, True),
+                  # values of the documented types (float, Decimal) that are not numbers in the range
+                  (float('nan'), False), (float('inf'), False), (float('-inf'), False), (__import__('decimal').Decimal('NaN'), False),
+                  (__import__('decimal').Decimal('Infinity'), False), (__import__('decimal').Decimal('sNaN'), False)):
         cases.append((f'amount {a!r}', dict(amount=a), ok))
     for e, ok in ((0, False), (1, True), (8, True), (9, False), (-1, False), ('utf-8', True), ('UTF-8', True), ('iso-8859-15', True), ('latin1', False),
                   ('iso-8859-3', False), (1.0, False)):
